@@ -248,14 +248,20 @@ impl<'a> Walk<'a> {
         F: Fn(Path) + Sync + Send,
         's: 'w,
     {
-        if self.path_selector.matches_dir(&path) {
-            Entry::from_path(path.clone())
-                .map_err(|e| self.log_warn(format!("Failed to stat {}: {}", path.display(), e)))
-                .into_iter()
-                .for_each(|entry| {
+        Entry::from_path(path.clone())
+            .map_err(|e| self.log_warn(format!("Failed to stat {}: {}", path.display(), e)))
+            .into_iter()
+            .for_each(|entry| {
+                // The directory filter applies to the directory holding a file, not to the file:
+                // a pattern like `file/**` must not reject `file` itself.
+                let dir = match entry.tpe {
+                    EntryType::File => path.parent().map(|p| p.as_ref()),
+                    _ => Some(&path),
+                };
+                if dir.map_or(true, |dir| self.path_selector.matches_dir(dir)) {
                     self.visit_entry(entry, dev, scope, level, gitignore.clone(), state)
-                })
-        }
+                }
+            })
     }
 
     /// Visits a path that was already converted to an `Entry` so the entry type is known.
